@@ -320,6 +320,53 @@ def gen_program(g, prof):
                 ["group", gi_, [["spawn", go, co, "soon", [["yield", g.int(0, 1)], ["start", gi_, cx, spec]]],
                                 ["yield", g.int(1, 3)]]],
                 ["yield", 1]] + main]]
+        elif which == "native_cancel_of_start_caller":
+            # the caller of start() is cancelled natively before started(); while start() waits for the child's
+            # (slow, shielded) cleanup, a scope around the caller is cancelled as well
+            go, a, cc, cx = new("g"), new("s"), new("c"), new("c")
+            st["names"] += [go, a, cc, cx]
+            st["groups"].append(go)
+            st["children"] += [cc, cx]
+            spec = {"pre": g.int(4, 7), "act": g.choice(["started", "block"]), "v": g.int(0, 9), "post": g.int(0, 2),
+                    "end": "return", "oncancel": g.choice(["reraise", "reraise", "boom"]), "cleanup": g.int(3, 6),
+                    "shielded": True}
+            c = g.int(3, 5)
+            ext += [[c, "native", cc], [c + g.int(1, 3), "cancel", g.choice([a, a, go])]]
+            main = [["group", go, [["spawn", go, cc, "soon", [["scope", a, False, None, [["start", go, cx, spec]]],
+                                                              ["yield", 1]]],
+                                   g.choice([["yield", g.int(1, 3)], ["wait", "e1"]])]]] + main
+        elif which == "outsider_start_enclosing_cancel":
+            # an outsider calls GI.start(); a scope enclosing both the caller and GI is cancelled before started();
+            # the started task is GI's last member and GI's host already waits in __aexit__
+            a, go, gi_, co, cx = new("s"), new("g"), new("g"), new("c"), new("c")
+            st["names"] += [a, go, gi_, co, cx]
+            st["groups"] += [go, gi_]
+            st["children"] += [co, cx]
+            spec = {"pre": g.int(4, 8), "act": g.choice(["started", "block"]), "v": g.int(0, 9), "post": g.int(0, 2),
+                    "end": "return", "oncancel": "reraise", "cleanup": g.int(0, 3), "shielded": True}
+            ext += [[g.int(3, 6), "cancel", g.choice([a, a, go])]]
+            main = [["scope", a, False, None, [["group", go, [
+                ["group", gi_, [["spawn", go, co, "soon", [["yield", g.int(0, 1)], ["start", gi_, cx, spec]]],
+                                ["yield", g.int(0, 2)]]],
+                ["yield", 1]]]]]] + main
+        elif which == "shielded_start_caller_group_failure":
+            # the group is cancelled (a sibling fails / its scope is cancelled) while a start() is in progress whose
+            # caller sits behind a shield (or outside the group); the starting child raises from its cleanup
+            gg, c1, c2, cx, sh = new("g"), new("c"), new("c"), new("c"), new("s")
+            st["names"] += [gg, c1, c2, cx, sh]
+            st["groups"].append(gg)
+            st["children"] += [c1, c2, cx]
+            spec = {"pre": g.int(5, 9), "act": g.choice(["started", "block"]), "v": g.int(0, 9), "post": 1,
+                    "end": "return", "oncancel": "boom", "cleanup": g.int(0, 2), "shielded": g.bool()}
+            trigger = g.choice(["sibling", "sibling", "cancel"])
+            first = ["spawn", gg, c1, "soon", [["yield", g.int(2, 4)]] + ([["raise", 77]] if trigger == "sibling"
+                                                                          else [["cancel", gg]])]
+            caller = [["scope", sh, True, None, [["start", gg, cx, spec]]], ["yield", 1]]
+            if g.chance(65):
+                body = [first, ["spawn", gg, c2, "soon", caller], g.choice([["yield", g.int(1, 3)], ["wait", "e1"]])]
+            else:
+                body = [first] + caller
+            main = [["group", gg, body]] + main
         elif which == "sibling_double_cancel":
             a, b, gg, c1, c2 = new("s"), new("s"), new("g"), new("c"), new("c")
             st["names"] += [a, b, gg, c1, c2]
